@@ -24,9 +24,11 @@ PID = "C10"
 THEOREMS = ["final_step_bound", "variance_gives_delta", "converged_rowsums_bound", "cis_bound",
             "trans_bound_partial", "diag_partial", "marginalize_eq_rowsum", "marginalize_diag_double",
             "diag_rowsums_not_flat", "trans_rowsums_not_flat", "masks_code_eq_spec",
-            "applyUpdate_nonneg", "applyUpdate_zero_iff", "icLoop_invariant", "others_positive_partial",
-            "mask_iff_partial", "rowsumTouch_eq", "provedInterval_sound"]
-LEVELS = {"model": "unit", "marginalize": "unit", "masks": "top", "flat": "top", "stored": "top", "cli": "top"}
+            "applyUpdate_nonneg", "applyUpdate_zero_iff", "icLoop_invariant", "others_positive",
+            "mask_iff_partial", "mask_iff", "icLoop_emptied_iff", "margVec_pattern", "balance_genome_mask_iff",
+            "maskedBias_zero_iff", "rowsumTouch_eq", "provedInterval_sound"]
+LEVELS = {"model": "unit", "marginalize": "unit", "masks": "top", "flat": "top", "run": "top", "stored": "top",
+          "cli": "top"}
 DESCRIBE = {
     "model": "cooler.balance_cooler (chunksize=None) vs the exact-rational Lean model `IC.balance`: NaN pattern, "
              "converged, scale and weights to 1e-9 (cases with a discrete decision closer than 1e-9 are skipped)",
@@ -37,6 +39,7 @@ DESCRIBE = {
              "every other bin finite and > 0",
     "flat": "in a run that reports convergence: row sums of the filtered symmetric matrix under the returned weights, "
             "computed by Lean, lie in the proved interval [1/(1+d), 1/(1-d)], d = sqrt(tol*N)/scale",
+    "run": "one float-only run (n<=40, max_iters<=500) checked as `flat` and as `masks`",
     "stored": "balance_cooler(store=True): bins/<name> column == returned weights, attrs == stats; then as `flat`",
     "cli": "`cooler balance -p 1 ...`: stored bins/weight column and attrs checked as `masks` and `flat`",
 }
@@ -352,15 +355,32 @@ def _flat(case):
     return _check_flat(case, bias, doms)
 
 
+def _both(case):
+    try:
+        bias, stats, _ = _run(case, "b")
+    except Exception as e:  # noqa
+        return {"mismatch": True, "impl": "err:" + errclass(e)}
+    doms = _domains(case, stats)
+    if doms is None:
+        return {"mismatch": True, "note": "stats arrays do not have one entry per domain"}
+    return _merge(_check_flat(case, bias, doms), _check_masks(case, bias, doms))
+
+
 def _merge(*rs):
-    st = {}
+    """combine sub-results; a mismatch that does not satisfy a finding's variant oracle is reported first, so that a
+    known finding never hides another failure of the same run"""
+    st, mism = {}, []
     for r in rs:
         if r is None:
             continue
         if r.get("mismatch"):
-            return r
+            mism.append(r)
+            continue
         for k, v in r.get("stats", {}).items():
             st[k] = st.get(k, 0) + v
+    if mism:
+        mism.sort(key=lambda r: bool((r.get("variant") or {}).get("ok")))
+        return mism[0]
     return {"stats": st}
 
 
@@ -412,7 +432,8 @@ def _cli(case):
     return _merge(_check_flat(case, col, doms), _check_masks(case, col, doms))
 
 
-CHECKS = {"model": _model, "marginalize": _marginalize, "masks": _masks, "flat": _flat, "stored": _stored, "cli": _cli}
+CHECKS = {"model": _model, "marginalize": _marginalize, "masks": _masks, "flat": _flat, "run": _both, "stored": _stored,
+          "cli": _cli}
 
 
 # ----------------------------------------------------------------------------------------------
@@ -533,7 +554,7 @@ def _float_case(rng, nmax):
             "blacklist": sorted(rng.sample(range(n), rng.choice([0, 0, 0, 1, 3]))),
             "x0": None if rng.random() < 0.85 else [rng.choice([1.0, 1.0, 0.5, 2.0, 0.0]) * (0.5 + rng.random()) for _ in range(n)],
             "tol": rng.choice([1e-5, 1e-5, 1e-4, 1e-3, 1e-2, 0.1, 1.0]),
-            "max_iters": rng.choice([50, 200, 200, 500]),
+            "max_iters": rng.choice([30, 100, 200, 200, 200, 500]),
             "rescale": rng.random() < 0.85}
     return {"n": n, "offsets": offs, "pixels": px, "opts": opts}
 
@@ -585,7 +606,7 @@ def cases(tier, rng):
         rng.shuffle(fs)
         yield "marginalize", {"n": n, "offsets": offs, "pixels": px, "filters": fs, "ignore_diags": rng.randint(0, 3)}
     # small cases: the same case is run through the unit comparison and the two top-level checks
-    for k in range(6000 if thorough else 700):
+    for k in range(6000 if thorough else 600):
         c = _small_case(rng)
         yield "model", c
         yield "masks", c
@@ -593,10 +614,9 @@ def cases(tier, rng):
         if k % (25 if thorough else 60) == 0:
             yield "stored", c
     # float-only runs
-    for k in range(5000 if thorough else 500):
+    for k in range(5000 if thorough else 400):
         c = _float_case(rng, 40 if thorough else 28)
-        yield "flat", c
-        yield "masks", c
+        yield "run", c
         if k % (50 if thorough else 120) == 0:
             yield "stored", c
     for k in range(12 if thorough else 2):
@@ -676,10 +696,9 @@ def escalate(name, case, rng):
     findings = [f for f in load_findings() if f["property"] == PID and f["status"] == "finding"]
 
     def tops(c):
-        for nm in ("masks", "flat"):
-            r = CHECKS[nm](c)
-            if isinstance(r, dict) and r.get("mismatch") and not classify(nm, c, r, findings):
-                return {"check": nm, "case": c, "result": r}
+        r = CHECKS["run"](c)
+        if isinstance(r, dict) and r.get("mismatch") and not classify("run", c, r, findings):
+            return {"check": "run", "case": c, "result": r}
         return None
     cands = []
     if "opts" in case:
